@@ -1,4 +1,5 @@
 from itertools import count
+import math
 import networkx as nx
 import flowpaths.utils as utils
 # NOTE: Do NOT import flowpaths.stdigraph at module import time to avoid a circular
@@ -322,7 +323,12 @@ def check_flow_conservation(G: nx.DiGraph, flow_attr) -> bool:
             in_flow += data[flow_attr]
 
         if out_flow != in_flow:
-            return False
+            # Integer sums are compared exactly. Float sums are accumulated in different orders on the two sides, so they may
+            # differ by a few units in the last place although the flow is conserved (6*1.1 versus 1.1 + 5*1.1)
+            if isinstance(out_flow, int) and isinstance(in_flow, int):
+                return False
+            if abs(out_flow - in_flow) > 4 * (G.out_degree(v) + G.in_degree(v)) * math.ulp(max(abs(out_flow), abs(in_flow))):
+                return False
 
     return True
 
